@@ -279,6 +279,10 @@ pub fn check_step(c: &StepCase, ctx: &mut Ctx) -> CheckResult {
             let pt = at(x, d, a);
             let (mabs, _) = if dual { dual_margin(k, &pt) } else { primal_margin(k, &pt) };
             let m = mabs / (norm_inf(x) + a * norm_inf(d)).max(1e-300) / (x.len() as f64);
+            // a ray that passes (almost) through the apex meets the boundary in a double root of the step-length
+            // quadratic, which double arithmetic resolves only to sqrt(eps): the same tolerance as for tightness
+            let through_apex = norm_inf(&pt) <= 1e-6 * (norm_inf(x) + a * norm_inf(d));
+            let slack = if through_apex && is_sym { slack.max(8.0 * (EPS / m0).sqrt()) } else { slack };
             ensure!(m >= -slack, "{nm} + alpha*d{nm} leaves cone #{ci} {k:?}: alpha = {a:e}, relative margin {m:e} (allowed {:e}); x = {:?}, d = {:?}", -slack, x, d);
         }
         let bz = boundary_alpha(k, zi, dzi, true, c.alpha_max);
